@@ -92,11 +92,12 @@ def scenarios(ctx):
     # "shutdown storms": many short executions in which consumers are (about to be) asleep on an empty queue when another
     # thread shuts it down - the window between a consumer's predicate check and its sleep cannot be widened by a hook
     # (it is inside std::condition_variable::wait), it can only be hit by repetition with varying delays
-    nstorm = 600 if quick else 6000
+    nstorm = 10000 if quick else 40000
     for ncons, extra in ((3, 0), (2, 1)):
         st = q(extra, 1, ncons, -1, 0, True, 0)
         st["seeds"] = [rnd.randrange(1, 1 << 30) for _ in range(nstorm)]
         st["storm"] = True
+        st["trace_first"] = 400 if quick else 4000      # later executions: termination only (watchdog)
         st["sched_prob"] = 10
         st["sched_max_us"] = 5
         st["watchdog_s"] = 20
@@ -129,7 +130,7 @@ def run_scenarios(ctx, scs, binary, workdir):
         with open(scp, "w") as fh:
             json.dump(sc, fh)
         rc, so, se = vlib.run_harness(binary, [scp, trp], timeout=900)
-        nexec = len(sc["seeds"])
+        nexec = len(sc["seeds"]) if sc.get("trace_first", -1) < 0 else min(len(sc["seeds"]), sc["trace_first"])
         if rc == 3:
             return i, "hang", trp, None, nexec, se
         if rc != 0:
@@ -184,6 +185,8 @@ def run(ctx):
             sig = "trace %s %s" % (desc, status)
         ctx.violation(sig, {"scenario": sc, "trace": lines[-400:]}, what)
     ctx.evaluations = sum(len(s["seeds"]) for s in scs)
+    ctx.extra["executions_watched_for_termination_only"] = sum(len(s["seeds"]) - s["trace_first"] for s in scs
+                                                               if s.get("trace_first", -1) >= 0 and len(s["seeds"]) > s["trace_first"])
     ctx.nontrivial = ctx.traces
     ctx.extra["trace_events_validated"] = nevents
     ctx.rule = ("one execution = one seeded run of a scenario (threads x scripts x bound) on the real Queue/Pool with schedule "
